@@ -52,11 +52,12 @@ def neg (w : BOp α) : BOp α := ⟨w.d, w.b, w.u, Scalar.one - w.a⟩
 def mul (x y : BOp α) : Except Label (BOp α) :=
   let one : α := Scalar.one
   let a := x.a * y.a
+  let na := (one - x.a) + (one - y.a) - (one - x.a) * (one - y.a)
   let b := x.b * y.b
-    + ((one - x.a) * y.a * x.b * y.u + (one - y.a) * x.a * y.b * x.u) / (one - a)
+    + ((one - x.a) * y.a * x.b * y.u + (one - y.a) * x.a * y.b * x.u) / na
   let d := x.d + y.d - x.d * y.d
   let u := x.u * y.u
-    + ((one - y.a) * x.b * y.u + (one - x.a) * y.b * x.u) / (one - a)
+    + ((one - y.a) * x.b * y.u + (one - x.a) * y.b * x.u) / na
   tryNew b d u a
 
 /-- `BOpinion::comul` (src/bi.rs:178-189) -/
